@@ -1216,11 +1216,7 @@ class t2grid(object):
 
         for blk in self.blocklist:
             name = blk.name
-            if name in blockmap:
-                del self.block[name]
-                mapped_name = blockmap[name]
-                self.block[mapped_name] = blk
-                blk.name = mapped_name
+            if name in blockmap: blk.name = blockmap[name]
             cons = set()
             for names in list(blk.connection_name):
                 con = []
@@ -1230,6 +1226,9 @@ class t2grid(object):
                 cons.add(tuple(con))
             blk.connection_name = cons
 
+        # rebuild the lookup afterwards: re-keying it in place loses blocks
+        # when names are swapped or cycled
+        self.block = dict([(blk.name, blk) for blk in self.blocklist])
         self.connection = {}
         for con in self.connectionlist:
             names = tuple([blk.name for blk in con.block])
